@@ -552,18 +552,30 @@ static carquet_status_t load_dictionary_page_mmap(
 
     /* Parse page header directly from mmap */
     int64_t dict_offset = col_meta->dictionary_page_offset;
+    if (dict_offset < 0 || (uint64_t)dict_offset >= (uint64_t)file_reader->file_size) {
+        CARQUET_SET_ERROR(error, CARQUET_ERROR_INVALID_PAGE, "Dictionary page offset outside file");
+        return CARQUET_ERROR_INVALID_PAGE;
+    }
     const uint8_t* header_ptr = mmap_data + dict_offset;
+    size_t avail = file_reader->file_size - (size_t)dict_offset;
+    size_t window = avail < 256 ? avail : 256;
 
     parquet_page_header_t page_header;
     size_t header_size;
     carquet_status_t status = parquet_parse_page_header(
-        header_ptr, 256, &page_header, &header_size, error);
+        header_ptr, window, &page_header, &header_size, error);
     if (status != CARQUET_OK) {
         return status;
     }
 
     if (page_header.type != CARQUET_PAGE_DICTIONARY) {
         CARQUET_SET_ERROR(error, CARQUET_ERROR_INVALID_PAGE, "Expected dictionary page");
+        return CARQUET_ERROR_INVALID_PAGE;
+    }
+
+    if (page_header.compressed_page_size < 0 ||
+        (size_t)page_header.compressed_page_size > avail - header_size) {
+        CARQUET_SET_ERROR(error, CARQUET_ERROR_INVALID_PAGE, "Dictionary page extends beyond file");
         return CARQUET_ERROR_INVALID_PAGE;
     }
 
@@ -809,18 +821,30 @@ static carquet_status_t load_next_page_mmap(
 
     /* Parse page header directly from mmap */
     int64_t page_offset = reader->data_start_offset + reader->current_page;
+    if (page_offset < 0 || (uint64_t)page_offset >= (uint64_t)file_reader->file_size) {
+        CARQUET_SET_ERROR(error, CARQUET_ERROR_INVALID_PAGE, "Data page offset outside file");
+        return CARQUET_ERROR_INVALID_PAGE;
+    }
     const uint8_t* header_ptr = mmap_data + page_offset;
+    size_t avail = file_reader->file_size - (size_t)page_offset;
+    size_t window = avail < 256 ? avail : 256;
 
     parquet_page_header_t page_header;
     size_t header_size;
     carquet_status_t status = parquet_parse_page_header(
-        header_ptr, 256, &page_header, &header_size, error);
+        header_ptr, window, &page_header, &header_size, error);
     if (status != CARQUET_OK) {
         return status;
     }
 
     if (page_header.type != CARQUET_PAGE_DATA && page_header.type != CARQUET_PAGE_DATA_V2) {
         CARQUET_SET_ERROR(error, CARQUET_ERROR_INVALID_PAGE, "Expected data page");
+        return CARQUET_ERROR_INVALID_PAGE;
+    }
+
+    if (page_header.compressed_page_size < 0 ||
+        (size_t)page_header.compressed_page_size > avail - header_size) {
+        CARQUET_SET_ERROR(error, CARQUET_ERROR_INVALID_PAGE, "Data page extends beyond file");
         return CARQUET_ERROR_INVALID_PAGE;
     }
 
